@@ -426,3 +426,14 @@ func bodyIsContinue(b *ast.BlockStmt) bool {
 	bs, ok := b.List[0].(*ast.BranchStmt)
 	return ok && bs.Tok == token.CONTINUE
 }
+
+func nodeContains(outer ast.Node, inner ast.Node) bool {
+	found := false
+	ast.Inspect(outer, func(n ast.Node) bool {
+		if n == inner {
+			found = true
+		}
+		return !found
+	})
+	return found
+}
